@@ -218,8 +218,8 @@ def rindex(rng, hi):
     return {'t': 'list', 'v': [N(rng.choice([-hi - 1, -1, 0, 1, hi - 1, hi, hi + 3, 2**31, 2**40]) if rng.random() < 0.25 else rng.randint(0, max(hi - 1, 0))) for _ in range(rng.randint(0, 5))]}
 
 def gen_ctor(rng, cid):
-    r = rng.choice(['matrix', 'matrix', 'spmatrix', 'spmatrix', 'sparse', 'spdiag', 'add', 'sub', 'mul', 'div', 'pow', 'iadd', 'imul', 'neg', 'abs', 'trans',
-                    'ctrans', 'size', 'V', 'real', 'imag', 'exp', 'log', 'sqrt', 'sin', 'cos', 'mulf', 'divf', 'maxf', 'minf'])
+    r = rng.choice(['matrix', 'matrix', 'spmatrix', 'spmatrix', 'sparse', 'spdiag', 'add', 'sub', 'mul', 'div', 'pow', 'iadd', 'isub', 'imul', 'idiv', 'neg', 'pos', 'abs',
+                    'bool', 'len', 'trans', 'ctrans', 'size', 'V', 'real', 'imag', 'exp', 'log', 'sqrt', 'sin', 'cos', 'mulf', 'divf', 'maxf', 'minf'])
     pos, kw = [], {}
     anym = lambda: rng.choice([rmat(rng), rsp(rng), rnum(rng)]) if rng.random() < 0.9 else rlist(rng)
     if r == 'matrix':
@@ -245,8 +245,12 @@ def gen_ctor(rng, cid):
         if rng.random() < 0.3: kw['tc'] = {'t': 'str', 'v': rng.choice(['d', 'z', 'i'])}
     elif r == 'spdiag':
         pos = [rng.choice([{'t': 'list', 'v': [rng.choice([rmat(rng, 'dz'), rsp(rng), rnum(rng)]) for _ in range(rng.randint(0, 4))]}, rmat(rng), rsp(rng), rnum(rng)])]
-    elif r in ('add', 'sub', 'mul', 'div', 'pow', 'iadd', 'imul'): pos = [rng.choice([rmat(rng), rsp(rng)]), anym()]
-    elif r in ('neg', 'abs', 'trans', 'ctrans', 'real', 'imag'): pos = [rng.choice([rmat(rng), rsp(rng)])]
+    elif r in ('add', 'sub', 'mul', 'div', 'pow', 'iadd', 'isub', 'imul', 'idiv'):
+        pos = [rng.choice([rmat(rng), rsp(rng), rsp(rng)]), anym()]
+        if rng.random() < 0.5 and 'v' in pos[0] and r != 'mul':
+            # conformable second operand (same shape), sparse or dense
+            sh = pos[0]['v']; pos[1] = rng.choice([{'t': 'sp', 'v': [sh[0] if sh[0] in 'dz' else 'd', sh[1], sh[2], rng.randint(0, 5)]}, {'t': 'mat', 'v': [rng.choice('dz'), sh[1], sh[2]]}, N(rng.choice([2, -0.5, 4.0, [0.0, 1.0]]))])
+    elif r in ('neg', 'pos', 'abs', 'bool', 'len', 'trans', 'ctrans', 'real', 'imag'): pos = [rng.choice([rmat(rng), rsp(rng), rsp(rng)])]
     elif r in ('exp', 'log', 'sqrt', 'sin', 'cos'): pos = [rng.choice([rmat(rng), rmat(rng, 'dz'), rsp(rng), rnum(rng)])]
     elif r in ('mulf', 'divf', 'maxf', 'minf'): pos = [anym() for _ in range(rng.randint(1, 3))]
     elif r == 'size': pos = [rng.choice([rmat(rng), rsp(rng)]), {'t': 'tuple', 'v': [N(rng.choice([0, 1, 2, 3, 4, 6, 8, 12, -1])), N(rng.choice([0, 1, 2, 3, 4, 6, -2]))]}]
@@ -263,6 +267,7 @@ def ctor_probes(ctx, rng, gb, prop='C19'):
         for it in range(n + len(corpus)):
             if it < len(corpus): case = corpus[it]
             else: case = gen_ctor(rng, cid); cid += 1
+            if prop == 'C16': case['twin'] = True
             res = w.run(case)
             if res.startswith('crash') or res == 'worker-died':
                 w2 = Worker(gb, WIDE); res2 = w2.run(dict(case)); w2.close()
@@ -270,9 +275,11 @@ def ctor_probes(ctx, rng, gb, prop='C19'):
                     if prop == 'C19': ctx.violation('c19:constructor-or-arithmetic-faults:' + case['routine'], '%s with %s faults (%s)' % (case['routine'], json_short(case), res2), case)
                     continue
                 res = res2
+            if res == 'twin-differs' and prop == 'C16':
+                ctx.violation('c16:dense-image-differs:' + case['routine'], '%s with %s: the result differs from the same operation on the dense images of the sparse operands' % (case['routine'], json_short(case)), case)
             if res == 'ccs-invalid' and prop == 'C16':
                 ctx.violation('c16:ccs-invalid:' + case['routine'], '%s with %s returns a sparse matrix with invalid compressed-column arrays' % (case['routine'], json_short(case)), case)
-            key = 'ok' if res == 'ok' else res if res == 'ccs-invalid' else 'exception'
+            key = 'ok' if res == 'ok' else res if res in ('ccs-invalid', 'twin-differs') else 'exception'
             stat[key] = stat.get(key, 0) + 1
             if res == 'ok': stat['ok:' + case['routine']] = stat.get('ok:' + case['routine'], 0) + 1
     finally:
